@@ -17,7 +17,8 @@ import (
 func init() {
 	register(&RuleSet{
 		ID: "C02",
-		Explanation: "R10 where SNP options were given the technology check runs: a call of verify.SNP in package verify is conditional only on those options being non-nil and on conditions whose other side refuses. " +
+		Explanation: "R11 where a validation entry point derives its policy from the endorsement (TdxPolicy / SevPolicy), a failed derivation ends the validation: from the error edge of that call no path reaches a call of the guest libraries' validators or a successful return — a fallback to the base policy would validate without the endorsed measurement in the policy. " +
+			"R10 where SNP options were given the technology check runs: a call of verify.SNP in package verify is conditional only on those options being non-nil and on conditions whose other side refuses. " +
 			"R9 the caller's endorsement is the reference: in a validator whose options can name the endorsement (field Endorsement) and that consults it, another endorsement is produced (extracted, unmarshalled, verified from bytes) only where that field was found nil. " +
 			"R1 verify.SNP (ESP with flags ExpectedLaunchVMSAs≠0, Measurement≠nil): a possibly-nil return needs the true edge of a bytes.Equal between the options' Measurement and an endorsed value — for a named count the endorsed value must come from the map lookup keyed by that count (or the SVSM field) — unless nothing was requested; a failed comma-ok / empty-SVSM presence test never reaches a nil return. " +
 			"R2 validator closure: the measurement handed on is the report's; the verification call is reached only behind the equal edge of len(m) vs abi.MeasurementSize. " +
@@ -52,6 +53,7 @@ func isBytesEqual(in ssa.Instruction) (*ssa.Call, bool) {
 }
 
 func runC02(c *Ctx) {
+	c02PolicyFailureIsFatal(c)
 	defer c02PinnedEndorsement(c)
 	defer c02TechnologyCheckNotSkipped(c)
 	// R7 = C01.R4: the closure that compares the measurement only decides anything if go-sev-guest must call it.
@@ -1073,4 +1075,83 @@ func c02TechnologyCheckNotSkipped(c *Ctx) {
 		}
 	}
 	c.S.Floor("R10", "calls of verify.SNP from package verify", 1, n)
+}
+
+// c02PolicyFailureIsFatal is R11. See the Explanation.
+func c02PolicyFailureIsFatal(c *Ctx) {
+	n := 0
+	for _, f := range c.P.RepoFunctions() {
+		if load.RelPkg(f) != "gcetcbendorsement" || c.isTestFunc(f) || f.Blocks == nil {
+			continue
+		}
+		for _, call := range callsIn(f, func(call ssa.CallInstruction) bool {
+			g := call.Common().StaticCallee()
+			return g != nil && load.RelPkg(g) == "gcetcbendorsement" && (g.Name() == "TdxPolicy" || g.Name() == "SevPolicy")
+		}) {
+			cv, ok := call.(*ssa.Call)
+			if !ok {
+				continue
+			}
+			ei := errIndex(cv.Call.Signature())
+			if ei < 0 {
+				continue
+			}
+			// the error edges: blocks entered on `err != nil` for this call's error
+			var starts []*ssa.BasicBlock
+			for _, b := range f.Blocks {
+				iff, ok := b.Instrs[len(b.Instrs)-1].(*ssa.If)
+				if !ok {
+					continue
+				}
+				bo, ok := iff.Cond.(*ssa.BinOp)
+				if !ok || !isNilK(bo.Y) {
+					continue
+				}
+				ex, ok := bo.X.(*ssa.Extract)
+				if !ok || ex.Tuple != ssa.Value(cv) || ex.Index != ei {
+					continue
+				}
+				switch bo.Op {
+				case token.NEQ:
+					starts = append(starts, b.Succs[0])
+				case token.EQL:
+					starts = append(starts, b.Succs[1])
+				}
+			}
+			if len(starts) == 0 {
+				continue
+			}
+			n++
+			bad := ""
+			seen := map[*ssa.BasicBlock]bool{}
+			var walk func(b *ssa.BasicBlock)
+			walk = func(b *ssa.BasicBlock) {
+				if seen[b] || bad != "" {
+					return
+				}
+				seen[b] = true
+				for _, in := range b.Instrs {
+					if cc, ok := in.(ssa.CallInstruction); ok {
+						if g := cc.Common().StaticCallee(); g != nil && g.Pkg != nil && (strings.HasSuffix(g.Pkg.Pkg.Path(), "go-tdx-guest/validate") || strings.HasSuffix(g.Pkg.Pkg.Path(), "go-sev-guest/validate") || strings.HasSuffix(g.Pkg.Pkg.Path(), "go-tdx-guest/verify") || strings.HasSuffix(g.Pkg.Pkg.Path(), "go-sev-guest/verify")) {
+							bad = "reaches " + callName(cc) + " at " + c.pos(cc.Pos())
+						}
+					}
+					if ret, ok := in.(*ssa.Return); ok {
+						if fe := errIndex(f.Signature); fe >= 0 && fe < len(ret.Results) && isNilK(ret.Results[fe]) {
+							bad = "returns nil at " + c.pos(ret.Pos())
+						}
+					}
+				}
+				for _, s := range b.Succs {
+					walk(s)
+				}
+			}
+			for _, st := range starts {
+				walk(st)
+			}
+			c.S.Check(bad == "", "R11", load.FuncName(f)+":"+callName(call)+" failure ends the validation", c.pos(call.Pos()), "from the error edge of the policy derivation every path returns an error",
+				"after the policy derivation failed the validation goes on ("+bad+"): the attestation is then validated under a policy that does not carry the endorsed measurement (the base policy as given) — for a base policy without a measurement list, any measurement is accepted")
+		}
+	}
+	c.S.Floor("R11", "policy derivations in validation entry points", 1, n)
 }
